@@ -167,11 +167,43 @@ def rule_sorting(chk, ci, classes, selectable):
     # the sorter itself: total order by (gid) or by id when gids are invalid
     t = M.cy(NB)
     sn = M.find_method(t, 'NNPS', '_sort_neighbors')
-    src = compact(sn)
-    ok = 'sort(_ids.begin(),_ids.end())' in src and 'sort(_data.begin(),_data.end(),__addr__(_compare_gids))' in src and \
-        'nbrs[i]=_data[i].first' in src and 'nbrs[i]=_ids[i]' in src and '_entry.second=gids[_id]' in src
+    M.set_parents(sn)
+    params = [a.arg for a in sn.args.args]
+    ok = len(params) >= 4
+    why = ''
+    if ok:
+        arr, length, gids = params[1], params[2], params[3]
+        sorts = [c for c in M.calls(sn) if M.call_name(c) == 'sort']
+        ok = len(sorts) == 2
+        seen_cmp = 0
+        for c in sorts:
+            a = [compact(x) for x in c.args]
+            cont = a[0][:-len('.begin()')] if a and a[0].endswith('.begin()') else None
+            full = cont is not None and len(a) >= 2 and a[1] == cont + '.end()'
+            host = M.enclosing(c, (ast.If,))
+            stmts = (host.body if any(c is x for b in host.body for x in ast.walk(b)) else host.orelse) if host is not None else sn.body
+            before = [l for l in stmts if isinstance(l, ast.For) and l.lineno < c.lineno]
+            after = [l for l in stmts if isinstance(l, ast.For) and l.lineno > c.lineno]
+            fill = any(compact(l.iter) == 'range(%s)' % length and any(isinstance(x, ast.Assign) and compact(x.targets[0]) == '%s[%s]' % (cont, compact(l.target)) for x in ast.walk(l)) and
+                       any(isinstance(x, ast.Subscript) and compact(x) == '%s[%s]' % (arr, compact(l.target)) and isinstance(x.ctx, ast.Load) for x in ast.walk(l)) for l in before)
+            back = any(compact(l.iter) == 'range(%s)' % length and any(isinstance(x, ast.Assign) and compact(x.targets[0]) == '%s[%s]' % (arr, compact(l.target)) and
+                                                                       compact(x.value) in ('%s[%s]' % (cont, compact(l.target)), '%s[%s].first' % (cont, compact(l.target)))
+                                                                       for x in ast.walk(l)) for l in after)
+            bygid = True
+            if len(a) == 3:
+                seen_cmp += 1
+                # the key of an entry is the gid of the id it carries: X.second = gids[<the id read from nbrs[i]>]
+                ids = set(compact(x.targets[0]) for l in before for x in ast.walk(l) if isinstance(x, ast.Assign) and compact(x.value) == '%s[%s]' % (arr, compact(l.target)))
+                bygid = any(isinstance(x, ast.Assign) and compact(x.targets[0]).endswith('.second') and
+                            (compact(x.value) in ['%s[%s]' % (gids, i) for i in ids] or compact(x.value) == '%s[%s[%s]]' % (gids, arr, compact(l.target)))
+                            for l in before for x in ast.walk(l))
+            if not (full and fill and back and bygid):
+                ok = False
+                why = 'sort(%s): whole container %s, filled from %s[0:%s] %s, written back %s, keyed by the gid of the id %s' % (', '.join(a), full, arr, length, fill, back, bygid)
+        ok = ok and seen_cmp == 1
     chk.decide(ok, 'sorting-honoured', 'sorter', node=sn, file=NB, func='NNPS._sort_neighbors',
-               detail_bad='the sorter no longer orders all `length` entries by gid (or by id when gids are unset) and writes them back', detail_ok='sorts ids / (id, gid) pairs in place')
+               detail_bad='the sorter no longer orders all `length` entries by gid (or by id when gids are unset) and writes them back: ' + why,
+               detail_ok='both branches: copy all entries, sort the whole container, write all back; pairs keyed by the gid of the id')
 
 
 def classify_index(fn, e, seen=None):
